@@ -38,6 +38,9 @@ def assigned_names(stmts):
                         out.add(n.id)
             elif isinstance(sub, ast.NamedExpr):
                 out.add(sub.target.id)
+            elif isinstance(sub, ast.Call) and isinstance(sub.func, ast.Attribute) and isinstance(sub.func.value, ast.Name) \
+                    and sub.func.attr in ("append", "extend", "pop", "insert", "remove", "clear", "sort", "reverse", "add", "update", "discard", "setdefault", "popitem"):
+                out.add(sub.func.value.id)      # mutated in place: part of the loop's frame
     return out
 
 
@@ -51,12 +54,14 @@ def havoc_like(I, name, val, node):
         return SymBool(z3.Const(nm, Bool))
     if isinstance(val, SymV):
         return SymV(z3.Const(nm, V))
+    if isinstance(val, SymList):
+        return SymList(z3.Const(nm, S))
     if isinstance(val, SymSeq):
         return SymSeq(z3.Const(nm, S), val.kind)
     if isinstance(val, PyTuple):
         return PyTuple([havoc_like(I, f"{name}{i}", x, node) for i, x in enumerate(val.items)])
     if isinstance(val, PyList):
-        return SymSeq(z3.Const(nm, S), "list")
+        return SymList(z3.Const(nm, S))
     if isinstance(val, SymReal):
         return SymReal(z3.Const(nm, smt.Real))
     if isinstance(val, SymBV):
